@@ -56,13 +56,3 @@ type Plain struct {
 	Op Op
 	L  []string
 }
-
-// Nested and Forest are recursive named containers: no struct on the cycle.
-type Nested []Nested
-
-type Forest map[string]Forest
-
-type Holder struct {
-	N Nested
-	F Forest
-}
